@@ -100,6 +100,14 @@ CHECKS["C05"] = (
     "5/C05",
 )
 
+CHECKS["C06"] = (
+    "Events.tla + THL.tla (SpecEval) + Ordered.tla / Unordered.tla (SpecEval) + TraceOrdered/TraceUnordered.tla",
+    "TLC enumerates every total species mapping (events per node, cost from loss sites; invariant EvalInv) and every valid ordered / unordered labelled solution (lost runs / charged edges) of the bounded inputs under arbitrary cost vectors; each is rebuilt as a (Super)ReconciliationOutput and node_event / reconciliation_cost / labeling_cost / cost compared; larger solver outputs re-priced under random costs are judged by TLA+ trace specs",
+    "Bounded-exhaustive spec->code replay of the evaluator on TLC-enumerated solutions (no solver involved, no coherence restriction) plus trace validation of larger solutions.",
+    "Trusts TLC and the declarative event model of Events.tla / OrderedOps.tla / UnorderedOps.tla (written from the property text; cross-checked against the optimisers by C01-C03); object <= 4 (5) leaves, species <= 4 (5-6) leaves, <= 3 families.",
+    "5/C06",
+)
+
 NOT_YET = {}
 
 
